@@ -202,6 +202,16 @@ class Driver:
         self.relpath, self.args = relpath, list(args)
 
     def run(self, lines, timeout=3000):
+        # the driver is interpreted against the compiled library: make sure what it imports is built (another check or a
+        # regeneration may have invalidated it since)
+        try:
+            mods = re.findall(r"^import\s+(GeckoModel\.\S+)", (LEAN / self.relpath).read_text(), re.M)
+            if mods:
+                ok, out, _ = lake_build(mods)
+                if not ok:
+                    raise DriverFailure(f"driver {self.relpath}: imports do not build: {out[-1500:]}")
+        except FileNotFoundError:
+            raise DriverFailure(f"driver {self.relpath} missing")
         data = "\n".join(lines) + "\n"
         rc, out, err = lean_run_file(self.relpath, self.args, stdin=data, timeout=timeout)
         if rc != 0:
